@@ -11,6 +11,7 @@ import (
 	"net"
 	"net/http"
 	"net/http/httptest"
+	"net/url"
 	"strings"
 	"sync"
 	"testing"
@@ -94,7 +95,7 @@ func genH(t *rapid.T) HCase {
 	kinds := []string{"none", "exact", "exact", "wrongpass", "wronguser", "other", "emptyuser", "emptypass", "badb64", "lowerscheme", "noscheme"}
 	for i := 0; i < m; i++ {
 		q := HReq{Form: rapid.SampledFrom([]string{"origin", "origin", "absolute", "absolute", "connect", "http10", "h2c"}).Draw(t, "form"),
-			Host: rapid.SampledFrom(hosts).Draw(t, "qhost"), Path: rapid.SampledFrom([]string{"/", "/p", "/p/q/r", "/z"}).Draw(t, "qpath"),
+			Host: rapid.SampledFrom(hosts).Draw(t, "qhost"), Path: rapid.SampledFrom([]string{"/", "/p", "/p/q/r", "/z", "/%70", "/%70/q/r", "/p/%71", "/%70/%71/r", "/p%2Fq"}).Draw(t, "qpath"),
 			Auth:      Cred{Kind: rapid.SampledFrom(kinds).Draw(t, "akind"), Of: rapid.IntRange(0, len(c.Routes)-1).Draw(t, "aof")},
 			ProxyAuth: Cred{Kind: rapid.SampledFrom(append([]string{"none", "none", "none"}, kinds...)).Draw(t, "pkind"), Of: rapid.IntRange(0, len(c.Routes)-1).Draw(t, "pof")},
 			HdrCase:   rapid.IntRange(0, 2).Draw(t, "hcase")}
@@ -295,7 +296,7 @@ func runH(c HCase) error {
 		}
 		// positive control: origin-form request with the exact credentials of the route that wins for that user is served
 		if q.Form == "origin" && q.Auth.Kind == "exact" && q.ProxyAuth.Kind == "none" {
-			if w, ok := refWinner(c.Routes, q.Host, q.Path, au); ok && w.protected() && w.User == au && w.Pass == ap {
+			if w, ok := refWinner(c.Routes, q.Host, decodePath(q.Path), au); ok && w.protected() && w.User == au && w.Pass == ap {
 				if status != 200 || len(reached) != 1 || c.Routes[reached[0]].key() != w.key() {
 					return fmt.Errorf("%s carries the exact credentials of the winning route %+v but was answered %d (reached %v)", desc, w, status, reached)
 				}
@@ -364,4 +365,11 @@ func dedup(l []string) []string {
 
 func TestHTTPRoutes(t *testing.T) {
 	fx.Run(t, fx.Spec[HCase]{Prop: "C07", Name: "http_routes", Quick: 1600, Thorough: 60000, Gen: genH, Run: runH, Class: classH})
+}
+
+func decodePath(p string) string {
+	if u, err := url.PathUnescape(p); err == nil {
+		return u
+	}
+	return p
 }
